@@ -104,6 +104,7 @@ func (s *SpecValidator) Validate(data interface{}) (*Result, *Result) {
 	}
 	s.spec = sd
 	s.analyzer = analysis.New(sd.Spec())
+	s.expanded = nil // nothing may be left over from a document validated earlier with this validator
 
 	// Raw spec unmarshalling errors
 	var obj interface{}
